@@ -27,7 +27,7 @@ def _derive_source(ctx, report, config):
     D.derive_source(ctx, report, "C06.DERIVESRC", ctx.facts(config, crate="shred_derive", kind="procmacro"), config)
 
 
-def run(ctx, report):
+def _run_rules(ctx, report):
     for config in ctx.configs:
         facts = ctx.facts(config)
         report.guard("C06.PRIM", W.prim, ctx, report, "C06.PRIM", facts, config)
@@ -60,3 +60,10 @@ def run(ctx, report):
             m += c["derive"]
         report.floor("C06.DERIVE", "derive expansions in /repo's tests, examples and benches", m, 10, config="all-targets")
         witness.check(report, "C06.WITNESS", ["W10"])
+
+
+def run(ctx, report):
+    _run_rules(ctx, report)
+    from .. import shared as _S
+    for config in ctx.configs:
+        report.guard("C06.ENCAPSULATED", _S.encapsulated, ctx, report, "C06.ENCAPSULATED", ctx.facts(config), config, "C06")
